@@ -17,7 +17,7 @@ func init() {
 		ID:        "C08",
 		Technique: "compiler bounds-check-elimination report as a proof oracle, panic-site and loop-bound scan, codec layout extraction from encoder and decoder SSA compared item by item with each other and with the wire spec table",
 		Explanation: "Statically decidable part of 'the frame codec round-trips and parsing is total': " +
-			"(R1) totality: in ParseFrame, ReadVarint, AppendFrame, AppendVarint, SplitData, SplitN every index/slice is proved in range by the Go compiler's prove pass, there is no other panic site and no recursion, and every loop has a constant bound or strictly shrinks its operand; " +
+			"(R1) totality: in ParseFrame, ReadVarint, AppendFrame, AppendVarint, SplitData, SplitN every index/slice is proved in range by the Go compiler's prove pass or implied by the dominating comparisons (an/bounds.go), there is no other panic site (a make that grows the destination is shown to have 0 <= len <= cap) and no recursion, and every loop has a constant bound, is bounded by a length, or strictly shrinks its operand; " +
 			"(R2) AppendFrame's emitted layout and ParseFrame's consumed layout agree item by item and both equal the wire spec (control byte bit fields done/kind/control, three varints, payload of the announced length); AppendVarint and ReadVarint agree on group size, continuation bit and order; " +
 			"(R3) ParseFrame consumes nothing unless it returns ok (the failure exit returns its input), and the success exit is dominated by the length-vs-remaining test.",
 		NotDecided: "the larger part of C08: equality with an independent reference decoder on all byte strings, round-trip for all 64-bit values, the exact remainder, and the need-more-data/error distinction on every malformed input are input-space facts; the layout rules are necessary, not sufficient.",
@@ -127,9 +127,22 @@ func checkBCE(c *an.Ctx, inFuncs map[string]bool, what string) int {
 			if is32 {
 				word = 32
 			}
-			if in := c.P.InstrAt(s.Pos); in != nil {
-				if proved, how := an.ProveInBounds(in, word); proved {
-					c.Ok(what+" | unproved "+s.Kind+" "+key, pos, "not proved by the compiler; "+how)
+			if s.InlinedFrom != "" {
+				c.Ok(what+" | unproved "+s.Kind+" "+key+" (inlined "+s.InlinedFrom+")", pos, "the compiler repeats here a check of the body of "+s.InlinedFrom+", which it inlined; it is decided at its own position")
+				continue
+			}
+			if ins := c.P.InstrsAt(s.Pos); len(ins) > 0 {
+				all, how := true, ""
+				for _, in := range ins {
+					proved, h := an.ProveInBounds(in, word)
+					if !proved {
+						all = false
+						break
+					}
+					how = h
+				}
+				if all {
+					c.Ok(what+" | unproved "+s.Kind+" "+key, pos, fmt.Sprintf("not proved by the compiler; %s (%d occurrence(s))", how, len(ins)))
 					continue
 				}
 			}
@@ -152,8 +165,20 @@ func c08r1(c *an.Ctx) {
 		fn := c.Fn("drpcwire", name)
 		// other panic sites
 		ps := an.PanicSites(fn)
+		nBad := 0
 		for _, p := range ps {
+			// growing the destination buffer: make sized from existing memory with a capacity shown to cover it
+			if mk, isMk := p.Instr.(*ssa.MakeSlice); isMk && p.Kind == "makeslice" && sizeFromExisting(mk.Len) {
+				if ok, how := an.ProveMake(mk, 64); ok {
+					c.Ok(name+" | "+p.Kind, c.At(p.Instr), "sized from the length of existing memory; "+how)
+					continue
+				}
+			}
+			nBad++
 			c.Bad(name+" | "+p.Kind, c.At(p.Instr), p.Detail)
+		}
+		if nBad == 0 && len(ps) > 0 {
+			c.Ok(name+" | no non-bounds panic site", c.P.Pos(fn.Pos()), "")
 		}
 		if len(ps) == 0 {
 			c.Ok(name+" | no non-bounds panic site", c.P.Pos(fn.Pos()), "")
